@@ -123,6 +123,50 @@ CLAIMED = {
          'its reason.', 'DESIGN.md 4/C13, 3.3 K6'),
 }
 
+# rules added after the first version of a check: (sentence appended to the level text, technique suffix)
+ADDENDA = {
+ 'C01': ('Value tables addressed by entry number are compared with the specification as well (R01.5).', ''),
+ 'C02': ('The window pcm_returned <= pcm_current is decided as an invariant of every decode-side writer by a relational '
+         'pair-invariant analysis (affine upper bounds in the two fields, half-rate shift made concrete), whatever the form of '
+         'the clamps; helper functions an unpacker was split into are analysed as part of it.',
+         ' + relational pair-invariant analysis (affine bounds) for the returned/current window'),
+ 'C03': ('Search loops that run until a sentinel changes have no iteration that leaves the state unchanged (R03.2: K4 '
+         'refinement of the exit conditions in the stuck state), and every libvorbis function vorbisfile hands a vorbis_info to '
+         'tolerates a cleared one (R03.5: K4 with codec_setup == NULL on entry).',
+         ' + stuck-state analysis of sentinel loops + null-entry analysis of the info accessors'),
+ 'C05': ('The managed-bitrate path hands out one of the PACKETBLOBS encodings (R05.6), residue entry numbers are mixed-radix '
+         'numbers with digits below the radix (R05.7), and submap bundles pair each slot with one channel identically in '
+         'encoder and decoder (R05.8).', ' + K4 value analysis of blob choice and codeword digits'),
+ 'C07': ('The window history of vorbis_synthesis_blockin is recorded before anything reads it, also for track-only blocks '
+         '(R07.8); events performed inside helper functions count (a helper that must restart the decoder, may move the stream).',
+         ''),
+ 'C08': ('The sample-discard loop of a sample-accurate seek makes progress: the remaining distance is at least one output '
+         'sample whenever its body runs, at full and at half rate (R08.8).', ' + K4 progress obligation on the discard loop'),
+ 'C09': ('Block-overlap sums skip the first packet at every site (R09.6) and the downward search over the links ends on a link '
+         'wherever its variable subscripts a per-link table (R09.7: K4, with the lemma that the remaining total is 0 at link 0).',
+         ' + K4 range obligations on link searches'),
+ 'C10': ('_fetch_headers performs the stream set-up of the link in every call that reports success, whatever state the handle '
+         'was entered in (R10.4).', ''),
+ 'C11': ('The lazily filled floor-0 cache is read only after the fill (R11.6); the arena reset may sit in a helper that performs '
+         'it on every path.', ''),
+ 'C12': ('A lazy-initialisation gate is never left set by a failed initialisation (R12.8: the decode book table), buffered '
+         'input is dropped only with the offset re-defined (R12.7).', ' + gate-reset path rule over helpers and their callers'),
+ 'C13': ('Counts cover the elements filled (R13.8), arrays of owners are released element-wise (R13.9), live elements are not '
+         're-initialised (R13.10); a file-local helper may leave a freed pointer to callers that wipe the container.', ''),
+ 'C15': ('Fixed-extent indexing in the psychoacoustic and vorbisenc set-up code is proven by K4 with floating intervals '
+         '(R15.5); every value vorbis_encode_ctl copies from the caller into a range-constrained set-up field is inside its '
+         'range at the store or clamped before the return (R15.6).', ' + K4 interval analysis (integer and floating) of set-up code'),
+ 'C16': ('Comment strings are allocated length+1 and filled exactly (R16.2); vorbis_comment_add grows both arrays alike and '
+         'keeps the terminator inside the allocation (R16.5).', ''),
+ 'C17': ('The channel count used for interleaving is the decoded link\'s and is not stale across the packet fetch (R17.5, R17.6).', ''),
+ 'C18': ('Decode scratch from the block arena is zeroed for every channel whatever the arena held (R18.6).', ''),
+ 'C19': ('The packet fetch reports end-of-file to the lap helpers only at a link boundary (R19.5) and vorbis_synthesis_lapout '
+         'can be called again on the state it left: every window move is guarded by a test the function falsifies (R19.6).',
+         ' + K4/K2 idempotence rule for lapout'),
+ 'C20': ('Units of measure are checked in the block layer as well (R20.5: stream vs output samples meet only through the '
+         'half-rate shift, the flag is never added to a sample count).', ' + units-of-measure tag analysis in lib/block.c'),
+}
+
 NA = {
  'C04': 'encode->decode sample count is run-time arithmetic over N, block switching and granule trimming; no structural clause bounds it (DESIGN 5)',
  'C06': 'alignment and quality of a lossy transform are numerical; nothing structural to decide statically (DESIGN 5)',
@@ -137,6 +181,9 @@ def main():
     for pid in props:
         if pid in CLAIMED:
             tech, text, note, ref = CLAIMED[pid]
+            if pid in ADDENDA:
+                text = text + ' ' + ADDENDA[pid][0]
+                tech = tech + ADDENDA[pid][1]
             checks.append({
                 'property_id': pid,
                 'quick_cmd': f'./check {pid} --tier quick',
